@@ -1164,7 +1164,8 @@ impl<B: ScopedBitRead> Reader for UperReader<B> {
             r.scope_stashed(|r| {
                 let mut vec = Vec::new();
                 r.read_length_and_items(C::EXTENSIBLE, C::MIN, C::MAX, |r, len| {
-                    vec.reserve(len as usize);
+                    // the length is untrusted input: do not reserve more than the input could hold
+                    vec.reserve((len as usize).min(r.bits.remaining()));
                     for _ in 0..len {
                         vec.push(T::read_value(r)?);
                     }
